@@ -667,6 +667,8 @@ def run(ctx):
         ("wit-F15u", "H dom SG s:ns:1 s:schema:1 s:val:1 p:slax1 F:slax2"),
         ("wit-F15c", "H sax2 DG s:cache:1 p:cref p:dext1 F:nsempty"),
         ("wit-F22", "S add:x add:y sync id:zz id:x add:q id:q id:nope count"),
+        ("wit-F15r", "H dom IG s:cache:1 px:m_lt:6 lk p:dext2 F:dcsa:r"), ("wit-F15r", "H sax DG s:cache:1 p:plain lk p:dext1 F:plain"),
+        ("wit-F15i", "H ls IG s:schema:1 pu:sinc lg:si.xsd:s:0 F:m_dupattr:r"),
         ("wit-F15a", "H ls IG s:filter:2 pab:dv1 F:dv1"), ("wit-F15w", "H ls IG s:val:1 pcx:frext:1:0:1 F:dbad1"),
     ]
     cases += wit
@@ -763,6 +765,23 @@ def run(ctx):
                                       "scheme and whitespace setting stay overwritten, fDocument keeps pointing to the APPLICATION's "
                                       "context document, which the next reset() moves into the parser-owned document vector and the "
                                       "parser later deletes (double free) (reproduced by `%s`)" % req)
+            elif f15r_class(req) and ctx.find_known("F15r"):
+                crashes -= 1        # a recorded crash class does not count towards the give-up limit
+                if not any(k.startswith("F15r") for k in ctx.known_hits):
+                    ctx.known_finding("F15r", "cacheGrammarFromParse with a LOCKED grammar pool that already holds the \"[dtd]\" grammar "
+                                      "of an earlier parse: IG/DGXMLScanner::scanDocTypeDecl of a document with an external DTD subset "
+                                      "cannot orphan that grammar (the pool is locked) but re-keys it by system id all the same -- the "
+                                      "locked pool's grammar is modified, its registry key dangles (heap-use-after-free in the next "
+                                      "getGrammar) and the grammar is registered a second time in the per-parse bucket (double free) "
+                                      "(reproduced by `%s`)" % req)
+            elif f15i_class(req) and ctx.find_known("F15i"):
+                crashes -= 1
+                if not any(k.startswith("F15i") for k in ctx.known_hits):
+                    ctx.known_finding("F15i", "loadGrammar(schema, toCache=false) right after a parse that loaded the same schema with "
+                                      "<xs:include>: IG/SGXMLScanner::loadGrammar does not clear the per-parse fSchemaInfoList (scanReset "
+                                      "does), TraverseSchema::preprocessSchema replaces (deletes) the stale entry of the including schema "
+                                      "while the stale entry of the included schema still points to it: heap-use-after-free in "
+                                      "SchemaInfo::addSchemaInfo <- preprocessInclude (reproduced by `%s`)" % req)
             elif f15c_class(req) and ctx.find_known("F15c"):
                 if not any(k.startswith("F15c") for k in ctx.known_hits):
                     ctx.known_finding("F15c", "DGXMLScanner with cacheGrammarFromParse: after a parse has cached the DTD "
@@ -977,6 +996,62 @@ def f15c_class(req):
     ext = any(o.split(":")[0] in ("p", "px", "pn", "pa", "pu", "pf") and o.split(":")[1] in EXT_DTD_DOCS for o in ops) or \
         t[-1].split(":")[1] in EXT_DTD_DOCS
     return dg and "s:cache:1" in ops and ext
+
+
+def f15r_class(req):
+    """crash class F15r: on IGXMLScanner/DGXMLScanner, a parse with cacheGrammarFromParse on while the pool is UNLOCKED (it leaves
+    the "[dtd]" grammar in the pool; resetCachedGrammarPool while unlocked removes it again), later -- pool LOCKED,
+    cacheGrammarFromParse still on -- a parse of a document with an external DTD subset (the final parse counts unless the
+    `:r` variant unlocks and clears the pool first)"""
+    t = req.split()
+    if t[0] != "H" or len(t) < 4:
+        return False
+    sc = t[2]
+    fin = t[-1].split(":")
+    caching = locked = dtd_in_pool = False
+    ops = t[3:-1] + (["p:" + fin[1]] if len(fin) >= 2 and not (len(fin) >= 3 and fin[2] == "r") else [])
+    for o in ops:
+        a = o.split(":")
+        if o == "lk":
+            locked = True
+        elif o == "ul":
+            locked = False
+        elif a[0] == "us" and len(a) > 1:
+            sc = a[1]
+        elif a[0] == "s" and len(a) > 2 and a[1] == "cache":
+            caching = a[2] != "0"
+        elif o == "rg" and not locked:
+            dtd_in_pool = False
+        elif a[0] in ("p", "px", "pn", "pa", "pu", "pf", "pab") and len(a) > 1 and sc in ("IG", "DG") and caching:
+            if not locked:
+                dtd_in_pool = True
+            elif dtd_in_pool and a[1] in EXT_DTD_DOCS:
+                return True
+    return False
+
+
+INCLUDE_DOCS = ("sinc", "sincbad", "sinc2")
+
+
+def f15i_class(req):
+    """crash class F15i: scanner IG or SG; an operation lg:si.xsd:s:0 (loadGrammar of the including schema, not cached) whose
+    nearest preceding parse operation is a parse of a document of the si.xsd family (no other parse in between)"""
+    t = req.split()
+    if t[0] != "H" or len(t) < 4:
+        return False
+    sc = t[2]
+    last = None
+    for o in t[3:-1]:
+        a = o.split(":")
+        if a[0] == "us" and len(a) > 1:
+            sc = a[1]
+        elif a[0] in ("p", "px", "pn", "pa", "pu", "pf", "pab", "pc", "pcx") and len(a) > 1:
+            last = a[1]
+        elif a[0] == "lg" and len(a) >= 4:
+            if a[1] == "si.xsd" and a[2] == "s" and a[3] == "0" and last in INCLUDE_DOCS and sc in ("IG", "SG"):
+                return True
+            last = None
+    return False
 
 
 def f15w_class(req):
